@@ -14,7 +14,7 @@ theorem convertVariable_input_free (s : CState) (v : Nat) (u : U) (cf : Rat) (mo
       (let ci := convertInstance s v cf u .input move
        let lp := (sortedOdes ci.1).foldl (freeStep v ci.2 (cfQ s v u cf)) (ci.1, [])
        (if lp.2.isEmpty then lp.1 else replaceRefs lp.1 lp.2, ci.2, lp.2)) := by
-  simp [convertVariable, hcf, hst, hfr, cfQ]
+  simp [convertVariable, statePhase, freePhase, replacePhase, hcf, hst, hfr, cfQ]
 
 /-- `instEqs_fwd` for any valuation that agrees with `σ` on the old variables and gives the new one `cf · v` -/
 theorem instEqs_fwd' (I : Interp K) {s : CState} (h : Inv0 s) (v : Nat) (hv : v < s.vars.length) (cf : Rat) (uu : U)
